@@ -482,6 +482,10 @@ func (e *ssaEval) instr(fr *frame, ins ssa.Instruction) {
 				return
 			}
 			if a.k == svAddr {
+				if v, ok := e.symFieldLoadY2(a.s); ok { // a field of a cell that holds a symbolic struct (ext_y2.go)
+					set(x, v)
+					return
+				}
 				set(x, symV("*"+a.s))
 			}
 		}
